@@ -385,7 +385,8 @@ EXPECT = ["C19.default_state_rates_sum_to_theta.1d", "C19.theta_is_mass_below_th
           "C19.theta_is_inclusion_exclusion_of_half_space_masses.2d", "C19.theta_is_inclusion_exclusion_of_half_space_masses.3d", "C19.theta_increasing_in_threshold.2d",
           "C19.survival_probability_is_exp_minus_t_theta", "C19.par_spread_is_one_minus_recovery_times_theta", "C19.implied_spread_inverts_the_present_value",
           "C19.cds_value_is_affine_in_the_spread",
-          "C19.default_times_of_a_path_do_not_depend_on_the_paths_valued_before"]
+          "C19.default_times_of_a_path_do_not_depend_on_the_paths_valued_before",
+          "C19.implied_threshold_reprices_the_spread"]
 
 
 def main(tier):
